@@ -28,6 +28,10 @@ CONSTANTS
 
   Lrsn0,
   Recharges,   \* TRUE: recharge notifications
+  ContShapes,  \* containers per usage entry: subset of {"single", "on_on", "on_off"} (two containers: both online, or an
+               \* online followed by an offline one, in the same rating group)
+  ChidModes,   \* charging ids: 0 = every session its own; n > 0 = every session uses n (consumers number their own ids)
+  UpdNfcs,     \* set of BOOLEAN: do updates / releases repeat the consumer identification of the create
   AddrKinds,   \* address members of the consumer identification in a create: subset of {"none","v4","v6","fqdn","all"}
   SinkAnswers, \* statuses the consumer's notification endpoint may answer a re-authorisation notification with
   Traffic,     \* numbers of unrelated one-time creates (they advance the global record counter)
@@ -44,8 +48,13 @@ Supi(u) == "imsi-" \o u
 TrigSeq(t) == CASE t = "none" -> <<>> [] t = "final" -> <<"final">> [] t = "partial" -> <<"volume">>
                 [] t = "final_then_partial" -> <<"final", "volume">> [] OTHER -> <<>>
 
-Entries == {[rg |-> g, req |-> r, conts |-> << [m |-> m, vol |-> v] >>] :
-              g \in RGs, r \in Reqs \cup {-1}, m \in Modes, v \in Vols}
+Entries ==
+  (IF "single" \in ContShapes THEN {[rg |-> g, req |-> r, conts |-> << [m |-> m, vol |-> v] >>] :
+                                     g \in RGs, r \in Reqs \cup {-1}, m \in Modes, v \in Vols} ELSE {})
+  \cup (IF "on_on" \in ContShapes THEN {[rg |-> g, req |-> r, conts |-> << [m |-> "on", vol |-> v], [m |-> "on", vol |-> w] >>] :
+                                     g \in RGs, r \in Reqs \cup {-1}, v \in Vols, w \in Vols} ELSE {})
+  \cup (IF "on_off" \in ContShapes THEN {[rg |-> g, req |-> r, conts |-> << [m |-> "on", vol |-> v], [m |-> "off", vol |-> w] >>] :
+                                     g \in RGs, r \in Reqs \cup {-1}, v \in Vols, w \in Vols \ {0}} ELSE {})
 UsageTemplates ==
   {<<>>} \cup {<<e>> : e \in Entries}
   \cup (IF TwoEntries THEN {<<p[1], p[2]>> : p \in {q \in Entries \X Entries : q[1].rg # q[2].rg}} ELSE {})
@@ -120,11 +129,11 @@ RefKind(t) ==
 \* ---- steps ----
 DoCreate ==
   /\ Cardinality(Dom(labels)) < MaxSess
-  /\ \E u \in Subs, c \in Consumers, tpl \in CreateTemplates, pad \in Pads, addr \in AddrKinds :
+  /\ \E u \in Subs, c \in Consumers, tpl \in CreateTemplates, pad \in Pads, addr \in AddrKinds, cm \in ChidModes :
        LET lab == "s" \o ToString(Cardinality(Dom(labels)) + 1)
            us  == Stamp(tpl, 1, nid)
            a   == [u |-> u, supi |-> Supi(u), sub |-> u, c |-> c, onetime |-> FALSE, usage |-> us,
-                   chid |-> Cardinality(Dom(labels)) + 1, pad |-> pad, notify |-> "n/" \o u \o "/" \o lab]
+                   chid |-> IF cm = 0 THEN Cardinality(Dom(labels)) + 1 ELSE cm, pad |-> pad, notify |-> "n/" \o u \o "/" \o lab]
            r   == Create(st, a)
            h2  == HCreate(h, a, r.resp)
        IN /\ st' = r.st /\ h' = h2
@@ -134,7 +143,7 @@ DoCreate ==
           /\ nid' = nid + CountC(tpl, 1)
           /\ hist' = Append(hist, [a |-> "create", u |-> u, s |-> lab, c |-> c, usage |-> tpl,
                                    pad |-> pad, chid |-> a.chid, addr |-> addr,
-                                   sig |-> StepSig("create:" \o addr, st, r.st, u, us, r.resp, <<>>)])
+                                   sig |-> StepSig("create:" \o addr \o ":" \o c \o ":" \o ToString(cm), st, r.st, u, us, r.resp, <<>>)])
 
 Targets == {[s |-> l, u |-> labels[l].u, ref |-> labels[l].ref] : l \in {x \in Dom(labels) : labels[x].live \/ BadRefs}}
            \cup (IF BadRefs THEN {[s |-> "none", u |-> u, ref |-> "no-such-ref"] : u \in Subs}
@@ -157,7 +166,7 @@ UsageOK(u, tpl, tg) ==
      /\ (\A j \in 1..Len(tpl) : j # i => tpl[j].rg # e.rg)
 
 DoUpdate ==
-  \E t \in Targets, tpl \in UsageTemplates, tg \in TrigSets :
+  \E t \in Targets, tpl \in UsageTemplates, tg \in TrigSets, nfc \in UpdNfcs :
     /\ UsageOK(t.u, tpl, tg)
     /\ LET us  == Stamp(tpl, 1, nid)
            pre == st
@@ -175,12 +184,12 @@ DoUpdate ==
                       \cup (IF r.resp.status = 200 THEN GAFlags(pre, t.u, us, r.resp.mui, TrigSeq(tg), 1) ELSE {})
                       \cup (IF r.resp.status >= 400 /\ r.st # pre THEN {"C12.rejection_no_effect"} ELSE {})
           /\ nid' = nid + CountC(tpl, 1)
-          /\ hist' = Append(hist, [a |-> "update", u |-> t.u, s |-> t.s, usage |-> tpl, trig |-> TrigSeq(tg),
-                                   sig |-> StepSig("update:" \o RefKind(t), pre, r.st, t.u, us, r.resp, TrigSeq(tg))])
+          /\ hist' = Append(hist, [a |-> "update", u |-> t.u, s |-> t.s, usage |-> tpl, trig |-> TrigSeq(tg), nfc |-> nfc,
+                                   sig |-> StepSig("update:" \o RefKind(t) \o (IF nfc THEN ":nfc" ELSE ""), pre, r.st, t.u, us, r.resp, TrigSeq(tg))])
           /\ UNCHANGED labels
 
 DoRelease ==
-  \E t \in Targets, tpl \in UsageTemplates, tg \in TrigSets :
+  \E t \in Targets, tpl \in UsageTemplates, tg \in TrigSets, nfc \in UpdNfcs :
     /\ UsageOK(t.u, tpl, tg)
     /\ LET us  == Stamp(tpl, 1, nid)
            pre == st
@@ -197,8 +206,8 @@ DoRelease ==
                       \cup (IF r.resp.status >= 400 /\ r.st # pre /\ ~(t.u \in Dom(pre.ue) /\ t.ref \in Dom(pre.ue[t.u].cdr))
                               THEN {"C12.rejection_no_effect"} ELSE {})
           /\ nid' = nid + CountC(tpl, 1)
-          /\ hist' = Append(hist, [a |-> "release", u |-> t.u, s |-> t.s, usage |-> tpl, trig |-> TrigSeq(tg),
-                                   sig |-> StepSig("release:" \o RefKind(t), pre, r.st, t.u, us, r.resp, TrigSeq(tg))])
+          /\ hist' = Append(hist, [a |-> "release", u |-> t.u, s |-> t.s, usage |-> tpl, trig |-> TrigSeq(tg), nfc |-> nfc,
+                                   sig |-> StepSig("release:" \o RefKind(t) \o (IF nfc THEN ":nfc" ELSE ""), pre, r.st, t.u, us, r.resp, TrigSeq(tg))])
           /\ labels' = IF r.resp.status = ok /\ t.s \in Dom(labels) /\ labels[t.s].u = t.u
                           THEN [labels EXCEPT ![t.s].live = FALSE] ELSE labels
 
